@@ -76,6 +76,7 @@ def run(prog, tier, extra=None):
     R2 = res.rule("C14.reserve", "inserting pooled transactions records their input reservations", floor=1)
     R4 = res.rule("C14.release-only-removed", "utxo_map entries are released only for transactions that left the pool", floor=3)
     R5 = res.rule("C14.cached-work", "the cached routing work of the pool is reset or adjusted whenever pooled transactions are removed or inserted", floor=4)
+    R6 = res.rule("C14.revalidate", "the pool is re-validated against the ledger on every block addition", floor=2)
     R3 = res.rule("C14.bundle-atomic", "bundle_block: no failure exit after the pool was drained without re-insertion", floor=1)
     fa = FieldAnalysis(prog)
     tx_sites, map_sites = {}, {}
@@ -265,6 +266,44 @@ def run(prog, tier, extra=None):
                                     {"path": describe_path(b, [bb] + p)}))
                 else:
                     res.sample({"rule": R5, "site": b.loc(bb), "body": name, "verdict": "cached work adjusted on every success path"})
+
+    # R6: the pool is re-validated against the ledger after every block addition: add_block_success reaches
+    # remove_block_transactions on every returning path, and remove_block_transactions always runs the sweep
+    # (a retain over Mempool.transactions whose closure asks Transaction::validate_against_utxoset)
+    BCP = CORE + "consensus::blockchain::Blockchain::"
+    rbt = prog.body(BCP + "remove_block_transactions")
+    abs_ = prog.body(BCP + "add_block_success::{closure#0}")
+    if rbt is None or abs_ is None:
+        raise LookupError("remove_block_transactions / add_block_success not found")
+    sweep_blocks = set()
+    chr_ = Chaser(rbt)
+    for bb, t in rbt.calls():
+        if (call_name(t) or "").rsplit("::", 1)[-1] in ("retain", "retain_mut", "extract_if") and t["args"] and has_field(chr_.origin(t["args"][0]), MEMPOOL, "transactions"):
+            for cb in closure_args(rbt, bb, prog):
+                if any((call_name(ct) or "").endswith("Transaction::validate_against_utxoset") or (call_name(ct) or "").endswith("Transaction::validate") for _, ct in cb.calls()):
+                    sweep_blocks.add(bb)
+    res.instance(R6)
+    if not sweep_blocks:
+        res.add(Finding(R6, "C14.revalidate|no-sweep", "remove_block_transactions no longer re-validates the pooled transactions against the ledger", rbt.loc(0)))
+    else:
+        p = rbt.find_path(0, rbt.return_blocks(), blocked=sweep_blocks)
+        if p:
+            res.add(Finding(R6, "C14.revalidate|conditional-sweep", "remove_block_transactions can return without re-validating the pooled transactions against the ledger: "
+                            "after a reorganisation a pooled transaction whose input was spent by another block of the new chain stays pooled", rbt.loc(p[-1]),
+                            {"path": describe_path(rbt, p)}))
+        else:
+            res.sample({"rule": R6, "sweep": [rbt.loc(x) for x in sweep_blocks], "verdict": "every path of remove_block_transactions runs the sweep"})
+    calls_rbt = {bb for bb, t in abs_.calls() if (t.get("res") or t.get("callee")) == rbt.path}
+    res.instance(R6)
+    if not calls_rbt:
+        res.add(Finding(R6, "C14.revalidate|not-called", "add_block_success does not call remove_block_transactions", abs_.loc(0)))
+    else:
+        p = abs_.find_path(0, abs_.return_blocks(), blocked=calls_rbt)
+        if p:
+            res.add(Finding(R6, "C14.revalidate|skipped", "add_block_success can finish without re-validating the pool (remove_block_transactions is skipped on some path)", abs_.loc(p[-1]),
+                            {"path": describe_path(abs_, p)}))
+        else:
+            res.sample({"rule": R6, "call": [abs_.loc(x) for x in calls_rbt], "verdict": "every returning path of add_block_success re-validates the pool"})
 
     # R3
     bpath = CORE + "consensus::mempool::Mempool::bundle_block::{closure#0}"
